@@ -1,0 +1,11 @@
+//! Verification wrappers, compiled only with `--cfg iroh_verif`.
+//!
+//! One sub-module per property: re-exports and thin constructors for crate-private items that
+//! the verification harness drives. Nothing here is used by the crate itself.
+#![allow(missing_docs, unreachable_pub, missing_debug_implementations, unused_imports, dead_code, clippy::unwrap_used)]
+
+pub mod c31;
+pub mod c32;
+pub mod c33;
+pub mod c34;
+pub mod c35;
